@@ -196,3 +196,91 @@ pub open spec fn remove_policy_post(w: World, id: u32, policy: Address, uninstal
     let w2 = w_call(w1, uninstall_call(w.this, policy, r, uninstall_ok));
     w_event(pset(w2, SmartAccountStorageKey::Policies(id), vec_of(p1).sv()), PolicyRemoved { context_rule_id: id, policy: policy }.ev())
 }
+
+// add / remove a rule
+pub open spec fn install_calls(this: Address, rule: ContextRule, entries: Seq<(Address, Val)>) -> Seq<Call> {
+    Seq::new(entries.len(), |i: int| install_call(this, entries[i].0, entries[i].1, rule))
+}
+pub open spec fn add_rule_guard(w: World, ct: ContextRuleType, valid_until: Option<u32>, signers: Seq<Signer>, pol: Seq<(Address, Val)>) -> bool {
+    &&& sa_count(w) < MAX_CONTEXT_RULES
+    &&& signers.no_duplicates()
+    &&& match valid_until { Some(v) => !(v < w.ledger_seq), None => true }
+    &&& limits_ok(signers, smap_keys(pol))
+    &&& set_fp_guard(w, ct, signers, smap_keys(pol))
+    &&& sa_next_id(w) + 1 <= u32::MAX
+}
+pub open spec fn add_rule_result(w: World, ct: ContextRuleType, name: String, valid_until: Option<u32>, signers: Seq<Signer>, pol: Seq<(Address, Val)>) -> ContextRule {
+    ContextRule { id: sa_next_id(w), context_type: ct, name: name, signers: vec_of(signers), policies: vec_of(smap_keys(pol)), valid_until: valid_until }
+}
+pub open spec fn add_rule_store(w: World, ct: ContextRuleType, name: String, valid_until: Option<u32>, signers: Seq<Signer>, pol: Seq<(Address, Val)>) -> World {
+    let id = sa_next_id(w);
+    let w1 = set_fp_post(w, ct, signers, smap_keys(pol));
+    let w2 = pset(w1, SmartAccountStorageKey::Meta(id), Meta { name: name, context_type: ct, valid_until: valid_until }.sv());
+    let w3 = pset(w2, SmartAccountStorageKey::Signers(id), vec_of(signers).sv());
+    let w4 = pset(w3, SmartAccountStorageKey::Policies(id), vec_of(smap_keys(pol)).sv());
+    pset(w4, SmartAccountStorageKey::Ids(ct), vec_of(sa_ids(w, ct).push(id)).sv())
+}
+pub open spec fn add_rule_post(w: World, ct: ContextRuleType, name: String, valid_until: Option<u32>, signers: Seq<Signer>, pol: Seq<(Address, Val)>) -> World {
+    let id = sa_next_id(w);
+    let rule = add_rule_result(w, ct, name, valid_until, signers, pol);
+    let w5 = add_rule_store(w, ct, name, valid_until, signers, pol);
+    let w6 = World { calls: w5.calls + install_calls(w.this, rule, pol), ..w5 };
+    let w7 = w_event(w6, ContextRuleAdded { context_rule_id: id, name: name, context_type: ct, valid_until: valid_until,
+        signers: vec_of(signers), policies: vec_of(smap_keys(pol)) }.ev());
+    iset(iset(w7, SmartAccountStorageKey::NextId, ((id + 1) as u32).sv()), SmartAccountStorageKey::Count, ((sa_count(w) + 1) as u32).sv())
+}
+pub proof fn lemma_install_step(w5: World, w1: World, w2: World, rule: ContextRule, pol: Seq<(Address, Val)>, i: int)
+    requires 0 <= i < pol.len(),
+        w1 == (World { calls: w5.calls + install_calls(w5.this, rule, pol.take(i)), ext: w1.ext, ..w5 }),
+        xcall_post(w1, w2, pol[i].0, fn_install(), seq![pol[i].1.sv(), rule.sv(), w5.this.sv()], SV::Void),
+    ensures w2 == (World { calls: w5.calls + install_calls(w5.this, rule, pol.take(i + 1)), ext: w2.ext, ..w5 }),
+{
+    assert(w2.calls =~= w5.calls + install_calls(w5.this, rule, pol.take(i + 1)));
+}
+
+pub open spec fn uninstall_log(fin: Seq<Call>, base: int, this: Address, rule: ContextRule, n: int) -> Seq<Call> {
+    Seq::new(n as nat, |i: int| uninstall_call(this, rule.policies@[i], rule, fin[base + i].ok))
+}
+pub open spec fn remove_rule_guard(w: World, id: u32) -> bool {
+    &&& sa_exists(w, id)
+    &&& sa_signers(w, id).no_duplicates() && sa_policies(w, id).no_duplicates()
+    &&& iget(w, SmartAccountStorageKey::Count).is_some() && sa_count(w) >= 1
+}
+/// `fin` = the final call log (only the success flags of the `uninstall` hooks are read from it: a failing hook does not block removal)
+pub open spec fn remove_rule_post(w: World, id: u32, fin: Seq<Call>) -> World {
+    let r = sa_rule(w, id);
+    let ids = sa_ids(w, r.context_type);
+    let pos = last_idx(ids, id);
+    let w1 = World { calls: w.calls + uninstall_log(fin, w.calls.len() as int, w.this, r, r.policies@.len() as int), ..w };
+    let w2 = pdel(pdel(pdel(w1, SmartAccountStorageKey::Meta(id)), SmartAccountStorageKey::Signers(id)), SmartAccountStorageKey::Policies(id));
+    let w3 = del_fp_post(w2, r.context_type, r.signers@, r.policies@);
+    let w4 = if pos >= 0 { pset(w3, SmartAccountStorageKey::Ids(r.context_type), vec_of(ids.remove(pos)).sv()) } else { w3 };
+    let w5 = iset(w4, SmartAccountStorageKey::Count, ((sa_count(w) - 1) as u32).sv());
+    w_event(w5, ContextRuleRemoved { context_rule_id: id }.ev())
+}
+pub proof fn lemma_uninstall_step(w0: World, w1: World, w2: World, rule: ContextRule, i: int)
+    requires 0 <= i < rule.policies@.len(),
+        w1 == (World { calls: w0.calls + uninstall_log(w1.calls, w0.calls.len() as int, w0.this, rule, i), ext: w1.ext, ..w0 }),
+        xcall_post(w1, w2, rule.policies@[i], fn_uninstall(), seq![rule.sv(), w0.this.sv()], SV::Void)
+            || xcall_failed(w1, w2, rule.policies@[i], fn_uninstall(), seq![rule.sv(), w0.this.sv()]),
+    ensures w2 == (World { calls: w0.calls + uninstall_log(w2.calls, w0.calls.len() as int, w0.this, rule, i + 1), ext: w2.ext, ..w0 }),
+{
+    let base = w0.calls.len() as int;
+    assert(w1.calls.len() == base + i);
+    assert(w2.calls =~= w0.calls + uninstall_log(w2.calls, base, w0.this, rule, i + 1)) by {
+        assert forall|k: int| 0 <= k < base + i + 1 implies w2.calls[k] == (w0.calls + uninstall_log(w2.calls, base, w0.this, rule, i + 1))[k] by {
+            if k < base + i { assert(w2.calls[k] == w1.calls[k]); }
+        }
+    }
+}
+pub proof fn lemma_push_no_dup<T>(s: Seq<T>, x: T)
+    requires s.no_duplicates(), !s.contains(x),
+    ensures s.push(x).no_duplicates(),
+{
+    let s2 = s.push(x);
+    assert forall|i: int, j: int| 0 <= i < s2.len() && 0 <= j < s2.len() && i != j implies s2[i] != s2[j] by {
+        if i < s.len() && j < s.len() { assert(s[i] != s[j]); }
+        else if i < s.len() { assert(s.contains(s[i])); }
+        else { assert(s.contains(s[j])); }
+    }
+}
